@@ -2,6 +2,7 @@ SPECIFICATION Spec
 CONSTANTS
   Bound = 8388608
   Slack = 1048576
+  Warm = 8388608
   MaxArenaChunk = 1048576
   L2 = 64008
 INVARIANT Done
